@@ -366,8 +366,10 @@ def tecmp_good(rng):
     elif r < 0.9:
         mt, dt = 1, rng.choice([0, 2, 0x00FF, 0x0100, 0xFFFF, rng.randrange(0xFF00)])
         p = wire.rbytes(rng, rng.choice([36, 36, 40, 46, 60]))
+        if rng.random() < 0.5:
+            p[4:6] = wire.be(rng.choice([0, 5, 6, 23, 24, 25, len(p) - 12]), 2)      # the declared vendor data length
         if bad:
-            p = p[:rng.randrange(1, 36)]
+            p = p[:rng.randrange(1, 36)]                # shorter than the 36 byte structure, whatever it declares (round8a-2)
     else:
         mt = rng.choice([0, 3, 3, 4, 0x0A, 0x33, 0xFF])
         dt = rng.choice([8, 0x10, 0x20, 0x80, 0x55, 0xFF00, rng.randrange(65536)])
@@ -393,7 +395,13 @@ def tecmp(seed, nepisodes, prefix):
             r = rng.random()
             if prev is not None and r < 0.12:
                 f = list(prev)                                   # the same message again
-            elif prev is not None and r < 0.3 and len(f) >= 4 and len(prev) >= 4:
+            elif prev is not None and r < 0.24 and len(prev) > 29:
+                # the previous message with one payload byte changed: same device, same serial number, another
+                # version / counter / data byte (a conversion remembered from the message before, round8a-1)
+                f = list(prev)
+                k = rng.randrange(28, len(f))
+                f[k] = (f[k] + rng.randrange(1, 256)) & 255
+            elif prev is not None and r < 0.4 and len(f) >= 4 and len(prev) >= 4:
                 f[1:4] = prev[1:4]                               # another message with the same device id and counter
             prev = f
             if rng.random() < 0.3:
